@@ -252,7 +252,8 @@ class PatternIH:
         return r
 
 
-def pattern_unit(repo, cs, ctor, wrapper):
+def pattern_unit(repo, cs, ctor, wrapper, inst_k=None):
+    """inst_k: for ctor == 'Instantiate', the number of entries of the notation's map (symbolic keys and plugs; a bound in that dimension)"""
     def unit(ctx):
         icls = repo.cls(SI, 'SerializingInterpreter')
         S, Mm, C = ctx.input('plist', 'stack'), ctx.input('plist', 'memory'), ctx.input('pclaims', 'claims')
@@ -268,7 +269,17 @@ def pattern_unit(repo, cs, ctor, wrapper):
             selfo = Obj(mcls, {'phase': 2, '_interpreting_warnings': set(), 'sub_interpreter': tr, '_patterns_for_memoization': SV(None, 'patset')})
         else:
             selfo = tr
-        p = ctx.input('ppat', 'p')
+        if ctor == 'Instantiate' and inst_k is not None:
+            m = PMp.mk('pnil')
+            keys = []
+            for i in reversed(range(inst_k)):
+                kk = ctx.input('int', f'key{i}')
+                ctx.assume(z3.And(*[kk.t != o.t for o in keys]))
+                keys.append(kk)
+                m = PMp.mk('pcons', kk.t, ctx.input('ppat', f'plug{i}').t, m)
+            p = SV(P.mk('Instantiate', ctx.input('ppat', 'definition').t, m), 'ppat')
+        else:
+            p = ctx.input('ppat', 'p')
         ctx.assume(pwf(p.t))
         if wrapper is not True:
             ctx.assume(P.is_(ctor, p.t))
@@ -280,7 +291,13 @@ def pattern_unit(repo, cs, ctor, wrapper):
             ctx.assume(z3.BoolVal(True))
         ctx.check_feasible()
         ctx.cover('call')
-        r = interp.run_function(f, [selfo, p])         # a failing tracker assertion / refused byte is a SymRaise: nothing is published then
+        try:
+            r = interp.run_function(f, [selfo, p])     # a failing BasicInterpreter check / refused byte is a SymRaise: nothing is published then
+        except SymRaise as e:
+            if (e.where or '').startswith('StatefulInterpreter.'):
+                ctx.oblige(f'noraise:building a declared pattern must not trip the tracker ({e.cls} at {e.where})', z3.BoolVal(False), kind='noraise')
+                return None
+            raise
         if not interp.is_pat(r):
             ctx.oblige('post:returns a pattern', z3.BoolVal(False), kind='post')
             return None
